@@ -59,6 +59,8 @@
 //!  binding-open  delete the `}}` of a binding                                  MissingExpressionEnd if no  Fatal
 //!                                                                              `}}` follows, else any Fatal
 //!                                                                              expression kind
+//!  end-tag       (also) rename the end tag: a proper prefix of the name, the name  MissingEndTag               Warn
+//!                plus a letter, another tag's name
 //!  binding-inner append ` +` / ` ? 1` / ` (` / ` [` / ` .` / ` &&` / an unterminated  any kind                    Warn
 //!                string (also cut by a line break, also as an operand) to a complete expression
 //!  binding-junk  insert ` x` / ` )` / ` #` / ` ]` / ` <astral>` before `}}`     UnexpectedExpressionChar.   Fatal
@@ -979,6 +981,14 @@ fn injections(t: &Tpl, mut f: impl FnMut(Defect, String) -> bool) {
         if let Some((a, b)) = el.end {
             if !(el.kind == EK::WxsInline && s[b..].contains("</wxs")) {
                 emit!(Defect::EndTag, splice(s, a..b, ""));
+            }
+            // the end tag carries another name -- a proper prefix of the element's name, an extension of it, another tag's:
+            // the element is left without its end tag
+            let n = el.tag.len();
+            if el.kind != EK::WxsInline && s[a..].starts_with("</") && s.get(a + 2..a + 2 + n).map_or(false, |x| x.eq_ignore_ascii_case(&el.tag)) {
+                if n >= 2 && el.tag.is_char_boundary(n - 1) { emit!(Defect::EndTag, splice(s, a + 2..a + 2 + n, &el.tag[..n - 1])); }
+                emit!(Defect::EndTag, splice(s, a + 2..a + 2 + n, &format!("{}x", el.tag)));
+                if ei % 3 == 0 { emit!(Defect::EndTag, splice(s, a + 2..a + 2 + n, if el.tag == "i" { "b" } else { "i" })); }
             }
         }
         // tag-eof: after the name, in the middle of the last attribute, before the close
